@@ -7,6 +7,7 @@ import (
 
 	"github.com/jdillenkofer/pithos/internal/storage/database/repository/partoutboxentry"
 	"github.com/jdillenkofer/pithos/internal/storage/metadatapart/partstore"
+	"github.com/jdillenkofer/pithos/internal/ulidutils"
 	"github.com/oklog/ulid/v2"
 )
 
@@ -180,7 +181,8 @@ func (bor *sqliteRepository) FindPartOutboxEntryChunkByIndexWithEntryPresence(ct
 
 func (bor *sqliteRepository) SavePartOutboxEntry(ctx context.Context, tx *sql.Tx, outboxId string, partOutboxEntry *partoutboxentry.Entity) error {
 	if partOutboxEntry.Id == nil {
-		id := ulid.Make()
+		// entries are replayed and looked up ORDER BY id: the id is the queue position
+		id := ulidutils.MakeOrdered()
 		partOutboxEntry.Id = &id
 		partOutboxEntry.CreatedAt = time.Now().UTC()
 		partOutboxEntry.UpdatedAt = partOutboxEntry.CreatedAt
